@@ -73,10 +73,12 @@ def check_dispatch(case):
     for hk, hbefore, times, flt in hooks:
         ev = Rec(event_id=len(evs), prng=random.Random(0), session=None, simulator=sim, name=f"e{len(evs)}")
         kw = {}
-        if hk == "market" and flt == "class":
+        if hk == "market" and flt in ("class", "both"):
             kw["specific_class"] = IndexMarket
-        if hk == "market" and flt == "instance":
-            kw["specific_instance"] = m0
+        if hk == "market" and flt == "both_ok":
+            kw["specific_class"] = Market
+        if hk == "market" and flt in ("instance", "both", "both_ok"):
+            kw["specific_instance"] = m0        # "both": an instance that is NOT of the class filter -> the hook can never fire; "both_ok": a consistent pair
         sim._add_event(EventHook(event=ev, hook_type=hk, is_before=hbefore, time=times, **kw))
         evs.append((ev, hk, hbefore, times, flt))
     # several occurrences in a row on the same simulator: dispatching must not change what later occurrences see
@@ -112,7 +114,7 @@ def check_dispatch(case):
         for ev, hk, hbefore, times, flt in evs:
             match = hk == kind and hbefore == before and (times is None or now in times)
             if match and hk == "market":
-                match = flt is None or (flt == "class" and isinstance(occ_market, IndexMarket)) or (flt == "instance" and occ_market is m0)
+                match = flt is None or (flt == "class" and isinstance(occ_market, IndexMarket)) or (flt in ("instance", "both_ok") and occ_market is m0)      # "both": never
             want = [(kind, before, key)] if match else []
             if ev.calls != want:
                 return f"{kind} {'before' if before else 'after'} at time {now}: hook ({hk}, before={hbefore}, times={times}, filter={flt}) was invoked {len(ev.calls)} time(s) {ev.calls[:2]}, expected {len(want)}"
@@ -125,7 +127,7 @@ def dispatch_cases():
         for now in (2, 5):
             for t1 in tls:
                 for t2 in tls:
-                    flts = [None, "class", "instance"] if kind == "market" else [None]
+                    flts = [None, "class", "instance", "both", "both_ok"] if kind == "market" else [None]
                     for f1 in flts:
                         for on_index in ((False, True) if kind == "market" else (False,)):
                             other_kind = KINDS[(KINDS.index((kind, before)) + 1) % len(KINDS)]
